@@ -144,7 +144,7 @@ Definition dl_inv (s : st) : Prop :=
   forall i, pending (getw (wants s) i) = true -> clock s <= wdl (getw (wants s) i).
 
 Record Inv (cf : cfg) (s : st) : Prop := {
-  inv_acc : cnt s = Z.of_nat (nheld s + length (dials s) + decs s);
+  inv_acc : cnt s = Z.of_nat (nheld s + length (closing s) + length (dials s) + decs s);
   inv_occ : forall x, (occ s x <= 1)%nat /\ ((1 <= occ s x)%nat -> (x < next s)%nat);
   inv_bound : cnt s <= eff_max cf;
   inv_dl : dl_inv s }.
@@ -327,17 +327,17 @@ Proof.
       * eapply dl_inv_ext; [exact D|exact Rext|exact Rck].
   - (* LClose *)
     destruct (memb c (lent s)) eqn:ML; [|destruct (memb c (scratch s)) eqn:MS; [|discriminate]]; injection H as <-.
-    + use_dec cf (with_lent s (remove_one c (lent s))). cbn in *.
-      pose proof (remove_one_length _ _ ML) as HL.
-      constructor; unfold nheld, occ, dl_inv in *; cbn; rewrite ?Ei, ?El, ?Er, ?Es, ?Ew, ?Ed, ?Ecl, ?En, ?Eck; try lia; auto.
+    + pose proof (remove_one_length _ _ ML) as HL.
+      constructor; unfold nheld, occ, dl_inv in *; cbn; rewrite ?app_length; cbn; try lia; auto.
       intros x. specialize (O x). pose proof (remove_one_cocc _ _ x ML). rewrite cocc_snoc. eqd; lia.
-    + use_dec cf (with_scratch s (remove_one c (scratch s))). cbn in *.
-      pose proof (remove_one_length _ _ MS) as HL.
-      constructor; unfold nheld, occ, dl_inv in *; cbn; rewrite ?Ei, ?El, ?Er, ?Es, ?Ew, ?Ed, ?Ecl, ?En, ?Eck; try lia; auto.
+    + pose proof (remove_one_length _ _ MS) as HL.
+      constructor; unfold nheld, occ, dl_inv in *; cbn; rewrite ?app_length; cbn; try lia; auto.
       intros x. specialize (O x). pose proof (remove_one_cocc _ _ x MS). rewrite cocc_snoc. eqd; lia.
   - (* LCloseFin *)
     destruct (memb c (closing s)) eqn:MC; [|discriminate]. injection H as <-.
-    constructor; unfold nheld, occ, dl_inv in *; cbn; try lia; auto.
+    use_dec cf (with_closing s (remove_one c (closing s))). cbn in *.
+    pose proof (remove_one_length _ _ MC) as HL.
+    constructor; unfold nheld, occ, dl_inv in *; rewrite ?Ei, ?El, ?Er, ?Es, ?Ew, ?Ed, ?Ecl, ?En, ?Eck; try lia; auto.
     intros x. specialize (O x). pose proof (remove_one_cocc _ _ x MC). eqd; lia.
   - (* LCleanIdle *)
     destruct (k <=? length (idle s))%nat eqn:EK; [|discriminate]. injection H as <-.
@@ -392,25 +392,10 @@ Proof.
   - intros c H. apply O. rewrite <- held_cocc. apply (count_occ_In Nat.eq_dec) in H. lia.
 Qed.
 
-(* open-or-dialling connections, not counting those whose slot CloseConn has given back already *)
-Theorem open_bound_excl_closing cf s : reach cf s ->
-  open_or_dialling s - Z.of_nat (length (closing s)) <= eff_max cf.
+(* the strict reading: connections open (Close not finished) or being dialled never exceed MaxConns *)
+Theorem open_bound_reach cf s : reach cf s -> open_bound cf s.
 Proof.
-  intros R. destruct (reach_inv _ _ R) as [A _ B _]. unfold open_or_dialling. rewrite held_length. lia.
-Qed.
-
-Theorem open_bound_no_closing cf s : reach cf s -> closing s = [] -> open_bound cf s.
-Proof. intros R E. pose proof (open_bound_excl_closing cf s R) as H. rewrite E in H. cbn in H. unfold open_bound. lia. Qed.
-
-Definition refute_cfg : cfg := {| maxc := 1; waiton := false; fifo := false |}.
-Definition refute_trace : list label := [LAcquire 1 false; LDialOk 0; LClose 0; LAcquire 1 false; LDialOk 0].
-
-Theorem open_bound_refuted : exists cf ls s, run cf init ls = Some s /\ reach cf s /\ ~ open_bound cf s.
-Proof.
-  exists refute_cfg, refute_trace.
-  destruct (run refute_cfg init refute_trace) as [s|] eqn:E; [|vm_compute in E; discriminate].
-  exists s. split; [reflexivity|]. split; [eapply run_reach; [apply reach_init|exact E]|].
-  vm_compute in E. injection E as <-. unfold open_bound. vm_compute. intros H. apply H. reflexivity.
+  intros R. destruct (reach_inv _ _ R) as [A _ B _]. unfold open_bound, open_or_dialling. rewrite held_length. lia.
 Qed.
 
 Theorem within_deadline_reach cf s : reach cf s -> within_deadline s.
@@ -421,8 +406,8 @@ Qed.
 
 Theorem quiescent_zero cf s : reach cf s -> quiescent s -> cnt s = 0.
 Proof.
-  intros R (H & Dl & Dc & _). pose proof (exact_accounting_reach _ _ R) as A.
-  unfold exact_accounting in A. rewrite H, Dl, Dc in A. exact A.
+  intros R (H & Cl & Dl & Dc & _). pose proof (exact_accounting_reach _ _ R) as A.
+  unfold exact_accounting in A. rewrite H, Cl, Dl, Dc in A. exact A.
 Qed.
 
 (* ---------- waiters ---------- *)
@@ -516,4 +501,124 @@ Proof.
     exists [LTimeout w], s2. split; [now left|]. cbn -[step]. rewrite S2. split; auto.
     unfold pending. destruct W2 as [-> | ->]; reflexivity.
   - unfold pending in P. rewrite EW in P. discriminate.
+Qed.
+
+(* ---------- no waiter is lost by the hand-off ---------- *)
+(* a wantConn that is still waiting is in the wait queue, or a dialConnFor goroutine is dialling for it *)
+Definition wq3 (ws : list want) (q : list nat) (ds : list dtask) : Prop :=
+  forall w, waitingb ws w = true -> In w q \/ In (DFor w) ds.
+Definition wq_inv (s : st) : Prop := wq3 (wants s) (waitq s) (dials s).
+
+Lemma waitingb_set_other ws i st w : st <> WWaiting -> waitingb (set_wst ws i st) w = true -> w <> i /\ waitingb ws w = true.
+Proof.
+  intros NS H. destruct (Nat.ltb_spec i (length ws)) as [L|L].
+  - unfold waitingb in *. rewrite getw_set in H by exact L. destruct (Nat.eqb_spec w i) as [->|N]; cbn in H.
+    + destruct st; try discriminate. congruence.
+    + auto.
+  - unfold set_wst in H. rewrite upd_ge in H by exact L. split; [|exact H].
+    pose proof (waitingb_lt _ _ H). lia.
+Qed.
+
+Lemma waitingb_set_waiting ws i w : waitingb (set_wst ws i WWaiting) w = true -> w = i \/ waitingb ws w = true.
+Proof.
+  intros H. destruct (Nat.ltb_spec i (length ws)) as [L|L].
+  - unfold waitingb in *. rewrite getw_set in H by exact L. destruct (Nat.eqb_spec w i) as [E|N]; auto.
+  - unfold set_wst in H. rewrite upd_ge in H by exact L. auto.
+Qed.
+
+Lemma waitingb_snoc ws x w : wst x = WDecided -> waitingb (ws ++ [x]) w = true -> waitingb ws w = true.
+Proof.
+  intros D. unfold waitingb. rewrite getw_snoc. destruct (w <? length ws)%nat; auto.
+  destruct (w =? length ws)%nat; [rewrite D|cbn]; discriminate.
+Qed.
+
+Lemma pop_waiting_keeps ws q : forall r q', pop_waiting ws q = (r, q') ->
+  forall x, In x q -> waitingb ws x = true -> r = Some x \/ In x q'.
+Proof.
+  induction q as [|y q IH]; cbn; intros r q' E x I W; [tauto|].
+  destruct (waitingb ws y) eqn:WY.
+  - injection E as <- <-. destruct I as [->|I]; auto.
+  - destruct I as [->|I]; [congruence|]. eapply IH; eauto.
+Qed.
+
+Lemma clear_front_keeps ws q x : In x q -> waitingb ws x = true -> In x (clear_front ws q).
+Proof.
+  induction q as [|y q IH]; cbn; [tauto|]. intros I W. destruct (waitingb ws y) eqn:WY; [exact I|].
+  destruct I as [->|I]; [congruence|auto].
+Qed.
+
+Lemma remove_nth_keeps {A} (l : list A) k z y : nth_error l k = Some z -> In y l -> y <> z -> In y (remove_nth l k).
+Proof.
+  revert k; induction l as [|a l IH]; intros [|k]; cbn; try discriminate.
+  - intros [= ->] [->|I] N; [congruence|exact I].
+  - intros E [->|I] N; [now left|right; eapply IH; eauto].
+Qed.
+
+Lemma dec_wq cf s : wq_inv s -> wq_inv (dec_conns_count cf s).
+Proof.
+  unfold wq_inv, dec_conns_count. intros H. destruct (negb (waiton cf)); cbn; [exact H|].
+  destruct (pop_waiting (wants s) (waitq s)) as [[w1|] q'] eqn:E; cbn; intros w W; destruct (H w W) as [I|I].
+  - destruct (pop_waiting_keeps _ _ _ _ E w I W) as [[= ->]|I']; [right; apply in_or_app; right; now left|now left].
+  - right. apply in_or_app. now left.
+  - destruct (pop_waiting_keeps _ _ _ _ E w I W) as [X|I']; [discriminate|now left].
+  - now right.
+Qed.
+
+Lemma release_wq cf s c : wq_inv s -> wq_inv (release_conn cf s c).
+Proof.
+  unfold wq_inv, release_conn. intros H. destruct (negb (waiton cf)); cbn; [exact H|].
+  destruct (pop_waiting (wants s) (waitq s)) as [[w1|] q'] eqn:E; cbn; intros w W.
+  - apply waitingb_set_other in W as [N W]; [|discriminate]. destruct (H w W) as [I|I]; [|now right].
+    destruct (pop_waiting_keeps _ _ _ _ E w I W) as [[= ->]|I']; [congruence|now left].
+  - destruct (H w W) as [I|I]; [|now right].
+    destruct (pop_waiting_keeps _ _ _ _ E w I W) as [X|I']; [discriminate|now left].
+Qed.
+
+Lemma wq3_dials_only s s' : wq_inv s -> wants s' = wants s -> waitq s' = waitq s ->
+  (forall w, In (DFor w) (dials s) -> In (DFor w) (dials s')) -> wq_inv s'.
+Proof. unfold wq_inv, wq3. intros H -> -> D w W. destruct (H w W); auto. Qed.
+
+Lemma step_wq cf s l s' : wq_inv s -> step cf s l = Some s' -> wq_inv s'.
+Proof.
+  intros H E. destruct l; cbn in E.
+  - destruct (tmo <=? 0); [discriminate|]. injection E as <-. unfold acquire.
+    destruct (idle s) as [|c0 r0]; [|destruct (fifo cf); exact H].
+    destruct (cnt s <? eff_max cf).
+    + intros w W. cbn in *. destruct (H w W); auto. right. apply in_or_app. now left.
+    + destruct (waiton cf); [|exact H]. intros w W. cbn in *. apply waitingb_snoc in W; [|reflexivity]. apply H, W.
+  - destruct (wst (getw (wants s) w)); try discriminate. injection E as <-. intros x W. cbn in *.
+    apply waitingb_set_waiting in W as [->|W]; [left; apply in_or_app; right; now left|].
+    destruct (H x W) as [I|I]; [|now right]. left. apply in_or_app. left. now apply clear_front_keeps.
+  - destruct (nth_error (dials s) k) as [d|] eqn:EK; [|discriminate]. destruct d as [|w0].
+    + injection E as <-. intros w W. cbn in *. destruct (H w W) as [I|I]; [now left|right].
+      eapply remove_nth_keeps; eauto. discriminate.
+    + destruct (waitingb (wants s) w0) eqn:W0; injection E as <-; intros w W; cbn in *.
+      * apply waitingb_set_other in W as [N W]; [|discriminate]. destruct (H w W) as [I|I]; [now left|right].
+        eapply remove_nth_keeps; eauto. congruence.
+      * destruct (H w W) as [I|I]; [now left|right]. eapply remove_nth_keeps; eauto. congruence.
+  - destruct (nth_error (dials s) k) as [d|] eqn:EK; [|discriminate]. destruct d as [|w0]; injection E as <-.
+    + apply dec_wq. intros w W. cbn in *. destruct (H w W) as [I|I]; [now left|right].
+      eapply remove_nth_keeps; eauto. discriminate.
+    + destruct (waitingb (wants s) w0) eqn:W0; intros w W; cbn in *.
+      * apply waitingb_set_other in W as [N W]; [|discriminate]. destruct (H w W) as [I|I]; [now left|right].
+        eapply remove_nth_keeps; eauto. congruence.
+      * destruct (H w W) as [I|I]; [now left|right]. eapply remove_nth_keeps; eauto. congruence.
+  - destruct (decs s); [discriminate|]. injection E as <-. apply dec_wq. exact H.
+  - destruct (wst (getw (wants s) w)); try discriminate; injection E as <-; intros x W; cbn in *;
+      (apply waitingb_set_other in W as [N W]; [|discriminate]); apply H, W.
+  - cbv zeta in E. destruct (clock s <? wdl (getw (wants s) w)); [discriminate|].
+    destruct (wst (getw (wants s) w)); try discriminate; injection E as <-; intros x W; cbn in *;
+      (apply waitingb_set_other in W as [N W]; [|discriminate]); apply H, W.
+  - destruct (memb c (lent s)); [|destruct (memb c (rel s)); [|discriminate]]; injection E as <-; apply release_wq; exact H.
+  - destruct (memb c (lent s)); [|destruct (memb c (scratch s)); [|discriminate]]; injection E as <-; exact H.
+  - destruct (memb c (closing s)); [|discriminate]. injection E as <-.
+    exact (dec_wq cf (with_closing s (remove_one c (closing s))) H).
+  - destruct (k <=? length (idle s))%nat; [|discriminate]. injection E as <-. exact H.
+  - destruct (forallb _ (wants s)); [|discriminate]. injection E as <-. exact H.
+Qed.
+
+Theorem no_lost_waiter cf s : reach cf s -> wq_inv s.
+Proof.
+  induction 1 as [|s l s' R IH E]; [|eapply step_wq; eauto].
+  intros w W. unfold waitingb, getw in W. cbn in W. destruct w; discriminate.
 Qed.
